@@ -10,7 +10,7 @@ from __future__ import annotations
 from typing import Callable, List, Optional, Tuple
 
 from .core import Check, Repo
-from .ir import Event, Term, Walker, contains, mk_not, show
+from .ir import Event, Term, Walker, contains, facts, has_guard, mk_not, show
 from .kinds import Kinds, node_of
 from .schema import (
     Competition,
@@ -138,15 +138,15 @@ def check_removal_bookkeeping(rep: Rep, pre: str, comp: Competition) -> List[Eve
         e for e in comp.events
         if e.kind == "call" and e.name == "append" and e.target == ("attr", ("attr", comp.graph, "idx_nodes"), "append")
     ]
-    base_guards = comp.loop.guards + ((comp.loop.cond, True),)
-    good = [e for e in appends if e in comp.top and e.guards == base_guards and e.args == (p,)]
+    base_guards = facts(comp.loop.guards + ((comp.loop.cond, True),))
+    good = [e for e in appends if e in comp.top and facts(e.guards) == base_guards and e.args == (p,)]
     rep.fn(pre + "IFT-order", fn, "conquest order: idx_nodes.append(p) once per removal, unconditionally",
            len(appends) == 1 and len(good) == 1,
            f"found {len(appends)} append(s) to idx_nodes in the loop, {len(good)} unconditional with the removed node",
            line=comp.loop.line)
     cost_stores = [e for e in comp.events if e.kind == "store" and e.target[0] == "attr" and e.target[2] == "cost"
                    and node_of(e.target[1])]
-    okc = [e for e in cost_stores if e in comp.top and e.guards == base_guards
+    okc = [e for e in cost_stores if e in comp.top and facts(e.guards) == base_guards
            and e.target == comp.field(p, "cost") and e.value == comp.hcost(p) and not e.aug]
     rep.fn(pre + "IFT-cost", fn, "recorded cost: nodes[p].cost = H.cost[p] at removal",
            len(okc) >= 1 and len(okc) == len(cost_stores),
@@ -269,7 +269,7 @@ def check_seeding(rep: Rep, pre: str, comp: Competition, repo: Repo) -> None:
         if i is None:
             continue
         want = ("cmp", "==", *sorted([K("PROTOTYPE"), comp.field(i, "status")], key=repr))
-        has = any((gd == want and pol) for gd, pol in ins.guards)
+        has = has_guard(ins.guards, want)
         rep.ev(pre + "SEED-guard", ins, has, "only nodes whose status is PROTOTYPE may be queued")
         branch = [e for e in before if e.kind == "store" and e.guards == ins.guards and e.loops == ins.loops]
         c0 = [e for e in branch if e.target == comp.hcost(i) and e.value[0] == "const"
@@ -283,7 +283,7 @@ def check_seeding(rep: Rep, pre: str, comp: Competition, repo: Repo) -> None:
         others = [e for e in before if e.kind == "store" and e.loops == ins.loops and e.target == comp.hcost(i)
                   and e not in c0]
         for e in others:
-            neg = any((gd == want and not pol) for gd, pol in e.guards)
+            neg = has_guard(e.guards, mk_not(want))
             ok = neg and e.value == K("FLOAT_MAX")
             rep.ev(pre + "SEED-inf", e, ok, "non-prototypes must start with H.cost = FLOAT_MAX")
         if not others:
@@ -381,13 +381,13 @@ def check_prim(rep: Rep, pre: str, comp: Competition) -> None:
 
     def guarded(e: Event) -> bool:
         gs = [(g, pol) for g, pol in e.guards]
-        return (g_pred, True) in gs and (g_lab, True) in gs
+        return has_guard(e.guards, g_pred) and has_guard(e.guards, g_lab)
 
     def only_benign(e: Event, node: Term) -> bool:
-        base = comp.loop.guards + ((comp.loop.cond, True),)
-        extra = [gp for gp in e.guards if gp not in base and gp not in ((g_pred, True), (g_lab, True))]
+        base = facts(comp.loop.guards + ((comp.loop.cond, True),))
+        extra = [f for f in facts(e.guards) if f not in base and f not in (g_pred, g_lab)]
         benign = ("cmp", "!=", *sorted([K("PROTOTYPE"), ("attr", node, "status")], key=repr))
-        return all(gp == (benign, True) for gp in extra)
+        return all(f == benign for f in extra)
 
     mp = [e for e in marks if e.target == comp.field(p, "status") and e.value == K("PROTOTYPE")
           and guarded(e) and only_benign(e, comp.node(p)) and e in comp.top]
@@ -461,11 +461,11 @@ def check_fmin_clustering(rep: Rep, pre: str, comp: Competition, label_field: st
         rt = [e for e in same if e.target == comp.field(i, "root") and e.value == i]
         rep.ev(pre + "CLU-seed-root", ins, len(rt) == 1, "every node starts as its own root")
     # root discovery at removal
-    base_guards = comp.loop.guards + ((comp.loop.cond, True),)
+    base_guards = facts(comp.loop.guards + ((comp.loop.cond, True),))
     g_root = ("cmp", "==", *sorted([K("NIL"), comp.field(p, "pred")], key=repr))
-    root_guards = base_guards + ((g_root, True),)
+    root_guards = base_guards + (g_root,)
     lifts = [e for e in comp.events if e.kind == "store" and e.target == comp.hcost(p)]
-    lift_ok = [e for e in lifts if e.guards == root_guards and e.value == comp.field(p, "density") and not e.aug
+    lift_ok = [e for e in lifts if facts(e.guards) == root_guards and e.value == comp.field(p, "density") and not e.aug
                and e in comp.top]
     rep.fn(pre + "CLU-root-lift", fn, "a node removed without predecessor is lifted to its density",
            len(lift_ok) == 1 and len(lifts) == 1,
@@ -474,7 +474,7 @@ def check_fmin_clustering(rep: Rep, pre: str, comp: Competition, label_field: st
     cost_st = [e for e in comp.events if e.kind == "store" and e.target[0] == "attr" and e.target[2] == "cost"
                and node_of(e.target[1])]
     cost_ok = [e for e in cost_st if e.target == comp.field(p, "cost") and e.value == comp.hcost(p)
-               and e.guards == base_guards and e in comp.top and not e.aug]
+               and facts(e.guards) == base_guards and e in comp.top and not e.aug]
     rep.fn(pre + "CLU-cost", fn, "recorded cost: nodes[p].cost = H.cost[p] at removal",
            len(cost_ok) == 1 and len(cost_st) == 1,
            f"{len(cost_st)} store(s) to a node cost in the loop, {len(cost_ok)} of the required form",
@@ -485,20 +485,20 @@ def check_fmin_clustering(rep: Rep, pre: str, comp: Competition, label_field: st
     # root label / cluster id
     if label_field == "predicted_label":
         own = [e for e in comp.events if e.kind == "store" and e.target == comp.field(p, "predicted_label")
-               and e.guards == root_guards]
+               and facts(e.guards) == root_guards]
         ok = len(own) == 1 and own[0].value == comp.field(p, "label")
         rep.fn(pre + "CLU-root-label", fn, "a root takes its own true label", ok,
                "expected 'if pred(p) == NIL: predicted_label(p) = label(p)'", line=comp.loop.line)
     else:
         own = [e for e in comp.events if e.kind == "store" and e.target == comp.field(p, "cluster_label")
-               and e.guards == root_guards]
+               and facts(e.guards) == root_guards]
         ok = False
         detail = "expected 'if pred(p) == NIL: cluster_label(p) = counter; counter += 1'"
         if len(own) == 1 and own[0].value[0] == "phi" and own[0].value[1] == comp.loop.lid:
             cname = own[0].value[2]
             init, end = comp.loop.carried.get(cname, (None, None))
             incs = [e for e in comp.events if e.kind == "bind" and e.name == cname]
-            inc_ok = (len(incs) == 1 and incs[0].guards == root_guards and incs[0].aug == "+"
+            inc_ok = (len(incs) == 1 and facts(incs[0].guards) == root_guards and incs[0].aug == "+"
                       and incs[0].target == ("const", 1) and incs[0].seq > own[0].seq)
             ok = init == ("const", 0) and inc_ok
             if init != ("const", 0):
@@ -603,7 +603,7 @@ def check_propagate_labels(rep: Rep, w: Walker) -> None:
                     ok = True
                 elif r == i:
                     eq = ("cmp", "==", *sorted([i, rooti], key=repr))
-                    ok = any(gd == eq and pol for gd, pol in e.guards)
+                    ok = has_guard(e.guards, eq)
                     detail = "label(i) is used without the guard root(i) == i"
             full = kinds.kind(i) == ("NodeIdx", n[0]) and i[0] in ("iter", "iterproj")
             if not full:
